@@ -592,6 +592,9 @@ def describe_class(cls, kd_base):
         mod = sys.modules[c.__module__]
         for name, fn in methods_of(class_ast(c)).items():
             if name in SKIP_METHODS:
+                if name == "worker_init_fn" and c.__name__ not in ("KDTransform", "KDCollatorBase"):
+                    raise Abort(f"{c.__name__} overrides worker_init_fn (line {fn.lineno}); only the hook of the base class "
+                                "(checked by transform_hook_shape) is understood")
                 if name == "_worker_init_fn":
                     for node in ast.walk(fn):
                         if (isinstance(node, ast.Attribute) and node.attr in ("rng", "set_rng")) or \
@@ -759,6 +762,9 @@ def describe_wrapper(cls, kd_transform, kd_wrapper):
             continue
         mod = sys.modules[c.__module__]
         for name, fn in methods_of(class_ast(c)).items():
+            if name == "worker_init_fn":
+                raise Abort(f"{c.__name__} overrides worker_init_fn (line {fn.lineno}); only KDWrapper.worker_init_fn "
+                            "(own hook, then the wrapped dataset) is understood")
             if name == "_worker_init_fn":
                 wi += parse_wrapper_worker_init(fn, mod, f"{c.__name__}._worker_init_fn", fields)
                 continue
@@ -1019,6 +1025,113 @@ def parse_getitem(fn, mod, who, fields):
 _CUR_CLASS = [None]
 
 
+def transform_hook_shape(fn, mod):
+    """KDTransform.worker_init_fn (subclasses cannot override it: asserted in KDTransform.__init__, and checked live by
+    the correspondence runs) must re-seed UNCONDITIONALLY.  Accepted body - anything else is refused (fail closed):
+        docstring / pass
+        NAME = <expression without calls other than get_worker_info()>              (locals: info, num_workers, ...)
+        if <test on such locals>: <local assignments> [else: <local assignments>]   (may only compute locals)
+        self.set_rng(get_rng_from_global())           exactly once, a TOP-LEVEL statement (not inside if / for / while /
+                                                      try / with), with nothing in front of it that can leave the
+                                                      function (return / raise / assert)
+        self._worker_init_fn(<arguments without calls>)   at most once, top level
+    So a re-seed that depends on get_worker_info(), the worker count, the rank, the environment or a flag stored on the
+    object, an early exit, and any state written to self are all refused.  -> list of reasons (empty = accepted)"""
+    bad = []
+    who = "KDTransform.worker_init_fn"
+    if [a.arg for a in fn.args.args][:2] != ["self", "rank"] or fn.args.vararg is not None:
+        bad.append(f"{who}: unexpected signature ({ast.unparse(fn.args)})")
+    if fn.decorator_list:
+        bad.append(f"{who}: decorated")
+
+    def pure_expr(e):
+        """no call besides get_worker_info() (resolved in the module), no walrus, no await / yield / lambda"""
+        for n in ast.walk(e):
+            if isinstance(n, ast.Call):
+                ch = chain_of(n.func)
+                obj = mod.__dict__.get(ch[0]) if ch and len(ch) == 1 else None
+                if not (obj is not None and getattr(obj, "__name__", "") == "get_worker_info" and not n.args and not n.keywords):
+                    return False
+            if isinstance(n, (ast.NamedExpr, ast.Await, ast.Yield, ast.YieldFrom, ast.Lambda, ast.ListComp, ast.SetComp,
+                              ast.DictComp, ast.GeneratorExp)):
+                return False
+        return True
+
+    def local_assign(st):
+        return (isinstance(st, ast.Assign) and len(st.targets) == 1 and isinstance(st.targets[0], ast.Name)
+                and pure_expr(st.value))
+
+    def is_reseed(st):
+        if not (isinstance(st, ast.Expr) and isinstance(st.value, ast.Call)):
+            return False
+        c = st.value
+        if not (is_self_attr(c.func, "set_rng") and len(c.args) == 1 and not c.keywords and isinstance(c.args[0], ast.Call)):
+            return False
+        a = c.args[0]
+        if a.args or a.keywords or not isinstance(a.func, ast.Name):
+            return False
+        obj = mod.__dict__.get(a.func.id)
+        return inspect.isfunction(obj) and obj.__name__ == "get_rng_from_global" and obj.__module__ == "kappadata.utils.random"
+
+    def is_own_hook(st):
+        if not (isinstance(st, ast.Expr) and isinstance(st.value, ast.Call) and is_self_attr(st.value.func, "_worker_init_fn")):
+            return False
+        c = st.value
+        return all(pure_expr(a) and not any(isinstance(n, ast.Call) for n in ast.walk(a))
+                   for a in list(c.args) + [k.value for k in c.keywords])
+
+    n_reseed = n_hook = 0
+    for st in fn.body:
+        line = f"line {st.lineno}: {ast.unparse(st).splitlines()[0][:80]}"
+        if isinstance(st, ast.Pass) or (isinstance(st, ast.Expr) and isinstance(st.value, ast.Constant)):
+            continue
+        if local_assign(st):
+            continue
+        if isinstance(st, ast.If):
+            inner = list(st.body) + list(st.orelse)
+            if pure_expr(st.test) and all(local_assign(x) or isinstance(x, ast.Pass) for x in inner):
+                continue
+            if any(is_reseed(x) or "set_rng" in ast.unparse(x) for x in ast.walk(st) if isinstance(x, ast.stmt)):
+                bad.append(f"{who}: the re-seed is behind a branch ({line}): whether a worker gets a stream of its own would "
+                           "depend on " + ast.unparse(st.test)[:80])
+            else:
+                bad.append(f"{who}: branch that does more than compute locals ({line})")
+            continue
+        if is_reseed(st):
+            n_reseed += 1
+            if n_hook:
+                bad.append(f"{who}: the own hook runs before the re-seed ({line})")
+            continue
+        if is_own_hook(st):
+            n_hook += 1
+            continue
+        bad.append(f"{who}: statement shape not understood ({line})")
+    if n_reseed != 1 and not any("behind a branch" in b for b in bad):
+        bad.append(f"{who}: {n_reseed} top-level `self.set_rng(get_rng_from_global())` statements, exactly one is understood")
+    if n_hook > 1:
+        bad.append(f"{who}: own hook called {n_hook} times")
+    return bad
+
+
+def hook_body(fn):
+    return [st for st in fn.body if not (isinstance(st, ast.Expr) and isinstance(st.value, ast.Constant))]
+
+
+def is_hook_fwd_call(st, recv_txt):
+    return (isinstance(st, ast.Expr) and isinstance(st.value, ast.Call)
+            and isinstance(st.value.func, ast.Attribute) and st.value.func.attr == "worker_init_fn"
+            and ast.unparse(st.value.func.value) == recv_txt
+            and st.value.args and isinstance(st.value.args[0], ast.Name) and st.value.args[0].id == "rank"
+            and any(k.arg is None for k in st.value.keywords))
+
+
+def kdwrapper_hook_ok(b):
+    """KDWrapper.worker_init_fn: EXACTLY `self._worker_init_fn(rank, **kwargs)` followed by
+    `self.dataset.worker_init_fn(rank, **kwargs)` - no flag, no early return, no branch, no state"""
+    return (b is not None and len(b) == 2
+            and ast.unparse(b[0]) == "self._worker_init_fn(rank, **kwargs)" and is_hook_fwd_call(b[1], "self.dataset"))
+
+
 def describe_dataset_classes():
     """shape of worker_init_fn of the dataset classes (C09)"""
     import kappadata.datasets.kd_dataset as m_ds
@@ -1056,9 +1169,8 @@ def describe_dataset_classes():
                       and len(st.body) == 1 and is_fwd_call(st.body[0], st.target.id) and not st.orelse)
         fwd.append((cls.__name__, ok))
     out["fwd"] = fwd
-    b = body_of(m_wr.KDWrapper)
-    out["wrapper"] = (b is not None and len(b) == 2
-                      and ast.unparse(b[0]) == "self._worker_init_fn(rank, **kwargs)" and is_fwd_call(b[1], "self.dataset"))
+    b = b0 = body_of(m_wr.KDWrapper)
+    out["wrapper"] = kdwrapper_hook_ok(b)
     # subclasses of KDWrapper must not override worker_init_fn (asserted in KDWrapper.__init__): checked live in c09
     b = body_of(m_ds.KDDataset)
     txt = "\n".join(ast.unparse(s) for s in (b or []))
@@ -1066,6 +1178,19 @@ def describe_dataset_classes():
             "        collator.set_rng(rng)")
     out["root"] = (txt == want)
     out["root_src"] = txt
+    # the hook of the transforms themselves: shape check (transform_hook_shape)
+    import kappadata.transforms.base.kd_transform as m_tr
+    fn = methods_of(class_ast(m_tr.KDTransform)).get("worker_init_fn")
+    why = ["KDTransform has no worker_init_fn"] if fn is None else transform_hook_shape(fn, m_tr)
+    out["transform"] = not why
+    out["why"] = list(why)
+    if not out["wrapper"]:
+        out["why"].append("KDWrapper.worker_init_fn is not exactly `self._worker_init_fn(rank, **kwargs); "
+                          "self.dataset.worker_init_fn(rank, **kwargs)`: "
+                          + " / ".join(ast.unparse(st).splitlines()[0][:60] for st in (b0 or [])))
+    if not out["root"]:
+        out["why"].append("KDDataset.worker_init_fn is not the understood text: " + txt[:200].replace("\n", " / "))
+    out["why"] += [f"{n}.worker_init_fn does not simply forward to every wrapped dataset" for n, ok in fwd if not ok]
     return out
 
 
@@ -1194,7 +1319,7 @@ def translate(repo):
     try:
         ds = describe_dataset_classes()
     except Exception as e:  # noqa
-        ds = {"fwd": [], "wrapper": False, "root": False}
+        ds = {"fwd": [], "wrapper": False, "root": False, "transform": False, "why": []}
         errors.append(f"dataset classes: {type(e).__name__}: {e}")
     try:
         errors += check_rng_helpers()
@@ -1207,7 +1332,11 @@ def translate(repo):
     txt += "Definition wrp_table : wtable := [\n" + ";\n".join(render_wdesc(d) for d in wdescs) + "\n].\n\n"
     txt += ("Definition ds_table : dsdesc := mkDsDesc\n  "
             + coq_list(["(" + q(n) + ", " + ("true" if ok else "false") + ")" for n, ok in ds["fwd"]])
-            + " " + ("true" if ds["wrapper"] else "false") + " " + ("true" if ds["root"] else "false") + ".\n")
+            + " " + ("true" if ds["wrapper"] else "false") + " " + ("true" if ds["root"] else "false")
+            + " " + ("true" if ds["transform"] else "false") + ".\n")
+    if ds.get("why"):
+        txt += ("(* worker_init_fn bodies that are not of the understood shape (the entry above is `false`, dsclosed fails):\n   "
+                + "\n   ".join(w.replace("*)", "* )").replace("(*", "( *") for w in ds["why"]) + " *)\n")
     if errors:
         txt += ("\n(* THE TRANSLATOR FAILED CLOSED: the sources contain shapes it does not understand.\n   "
                 + "\n   ".join(e.replace("*)", "* )").replace("(*", "( *") for e in errors) + " *)\n"
@@ -1292,8 +1421,13 @@ sample wrappers (describe_wrapper)
 helpers (check_rng_helpers): the exact text of utils.random.get_rng_from_global (`return np.random.default_rng(seed=
   np.random.randint(np.iinfo(np.int32).max))`, no parameters) and of utils.global_rng.GlobalRng (thin view of np.random)
 dataset classes (describe_dataset_classes): the exact text of worker_init_fn of ModeWrapper, KDSubset, KDConcatDataset,
-  _InterleavedConcatDataset (forward to every wrapped dataset), KDWrapper (own hook, then wrapped dataset), KDDataset
-  (one get_rng_from_global() handed to every collator); any other text makes the table entry `false`.
+  _InterleavedConcatDataset (forward to every wrapped dataset), KDWrapper (own hook, then wrapped dataset: exactly these
+  two statements - a flag, an early return, a branch make the entry `false`), KDDataset (one get_rng_from_global()
+  handed to every collator); any other text makes the table entry `false`.
+KDTransform.worker_init_fn (transform_hook_shape): local assignments / branches that only compute locals from
+  get_worker_info(), then exactly one TOP-LEVEL `self.set_rng(get_rng_from_global())`, then at most one
+  `self._worker_init_fn(...)`; a re-seed behind any branch (worker info, worker count, rank, environment, object state),
+  an early return / raise / assert, a loop / try / with, an assignment to self.<attr> make the entry `false`.
 """
 
 _SELFTEST_PRELUDE = """
@@ -1602,3 +1736,180 @@ def selftest():
             out.append({"name": name, "kind": kind, "expected": "accepted" if accept else "abort", "got": got, "detail": detail})
     return out
 
+
+
+# ---------------------------------------------------------------------------
+# negative self-test of the worker_init_fn shape checks (run by C09)
+# ---------------------------------------------------------------------------
+_HOOK_PRELUDE = """
+import os
+import numpy as np
+from torch.utils.data import get_worker_info
+from kappadata.utils.random import get_rng_from_global
+"""
+
+# (name, kind, must be accepted?, source of the function)
+_HOOK_SOURCES = [
+    ("ok_as_shipped", "transform", True, """
+def worker_init_fn(self, rank, **kwargs):
+    info = get_worker_info()
+    if info is None:
+        num_workers = 1
+    else:
+        num_workers = info.num_workers
+    self.set_rng(get_rng_from_global())
+    self._worker_init_fn(rank, num_workers, **kwargs)
+"""),
+    ("ok_conditional_expression_for_a_local", "transform", True, """
+def worker_init_fn(self, rank, **kwargs):
+    \"\"\"doc\"\"\"
+    info = get_worker_info()
+    num_workers = 1 if info is None else info.num_workers
+    self.set_rng(get_rng_from_global())
+    self._worker_init_fn(rank, num_workers, **kwargs)
+"""),
+    ("reseed_only_with_several_workers", "transform", False, """
+def worker_init_fn(self, rank, **kwargs):
+    info = get_worker_info()
+    num_workers = 1 if info is None else info.num_workers
+    if info is None or num_workers > 1:
+        self.set_rng(get_rng_from_global())
+    self._worker_init_fn(rank, num_workers, **kwargs)
+"""),
+    ("reseed_in_both_branches", "transform", False, """
+def worker_init_fn(self, rank, **kwargs):
+    info = get_worker_info()
+    if info is None:
+        num_workers = 1
+        self.set_rng(get_rng_from_global())
+    else:
+        num_workers = info.num_workers
+        self.set_rng(get_rng_from_global())
+    self._worker_init_fn(rank, num_workers, **kwargs)
+"""),
+    ("reseed_depends_on_rank", "transform", False, """
+def worker_init_fn(self, rank, **kwargs):
+    if rank > 0:
+        self.set_rng(get_rng_from_global())
+    self._worker_init_fn(rank, 1, **kwargs)
+"""),
+    ("early_return_on_environment", "transform", False, """
+def worker_init_fn(self, rank, **kwargs):
+    if os.environ.get("KD_KEEP_RNG"):
+        return
+    self.set_rng(get_rng_from_global())
+    self._worker_init_fn(rank, 1, **kwargs)
+"""),
+    ("initialised_flag", "transform", False, """
+def worker_init_fn(self, rank, **kwargs):
+    if getattr(self, "_worker_initialized", False):
+        return
+    self._worker_initialized = True
+    self.set_rng(get_rng_from_global())
+    self._worker_init_fn(rank, 1, **kwargs)
+"""),
+    ("flag_written_after_reseed", "transform", False, """
+def worker_init_fn(self, rank, **kwargs):
+    self.set_rng(get_rng_from_global())
+    self._worker_initialized = True
+    self._worker_init_fn(rank, 1, **kwargs)
+"""),
+    ("reseed_inside_try", "transform", False, """
+def worker_init_fn(self, rank, **kwargs):
+    try:
+        self.set_rng(get_rng_from_global())
+    except Exception:
+        pass
+    self._worker_init_fn(rank, 1, **kwargs)
+"""),
+    ("reseed_inside_loop", "transform", False, """
+def worker_init_fn(self, rank, **kwargs):
+    info = get_worker_info()
+    for _ in range(0 if info is None else info.num_workers - 1):
+        self.set_rng(get_rng_from_global())
+    self._worker_init_fn(rank, 1, **kwargs)
+"""),
+    ("reseed_from_another_generator", "transform", False, """
+def worker_init_fn(self, rank, **kwargs):
+    self.set_rng(np.random.default_rng(rank))
+    self._worker_init_fn(rank, 1, **kwargs)
+"""),
+    ("no_reseed", "transform", False, """
+def worker_init_fn(self, rank, **kwargs):
+    info = get_worker_info()
+    num_workers = 1 if info is None else info.num_workers
+    self._worker_init_fn(rank, num_workers, **kwargs)
+"""),
+    ("assert_in_front", "transform", False, """
+def worker_init_fn(self, rank, **kwargs):
+    assert get_worker_info() is not None
+    self.set_rng(get_rng_from_global())
+    self._worker_init_fn(rank, 1, **kwargs)
+"""),
+    ("local_from_a_method_call", "transform", False, """
+def worker_init_fn(self, rank, **kwargs):
+    num_workers = self._count_workers()
+    self.set_rng(get_rng_from_global())
+    self._worker_init_fn(rank, num_workers, **kwargs)
+"""),
+    ("own_hook_first", "transform", False, """
+def worker_init_fn(self, rank, **kwargs):
+    self._worker_init_fn(rank, 1, **kwargs)
+    self.set_rng(get_rng_from_global())
+"""),
+    ("ok_wrapper_as_shipped", "wrapper", True, """
+def worker_init_fn(self, rank, **kwargs):
+    self._worker_init_fn(rank, **kwargs)
+    self.dataset.worker_init_fn(rank, **kwargs)
+"""),
+    ("wrapper_initialised_flag", "wrapper", False, """
+def worker_init_fn(self, rank, **kwargs):
+    if self._is_worker_initialized:
+        return
+    self._is_worker_initialized = True
+    self._worker_init_fn(rank, **kwargs)
+    self.dataset.worker_init_fn(rank, **kwargs)
+"""),
+    ("wrapper_only_in_workers", "wrapper", False, """
+def worker_init_fn(self, rank, **kwargs):
+    if get_worker_info() is not None:
+        self._worker_init_fn(rank, **kwargs)
+    self.dataset.worker_init_fn(rank, **kwargs)
+"""),
+    ("wrapper_does_not_descend", "wrapper", False, """
+def worker_init_fn(self, rank, **kwargs):
+    self._worker_init_fn(rank, **kwargs)
+"""),
+    ("wrapper_descends_for_several_workers_only", "wrapper", False, """
+def worker_init_fn(self, rank, **kwargs):
+    self._worker_init_fn(rank, **kwargs)
+    info = get_worker_info()
+    if info is None or info.num_workers > 1:
+        self.dataset.worker_init_fn(rank, **kwargs)
+"""),
+]
+
+
+def hook_selftest():
+    """every synthetic worker_init_fn with a conditional / stateful / missing re-seed must be REFUSED by the shape checks
+    (transform_hook_shape, kdwrapper_hook_ok), the well-formed controls accepted.
+    -> list of {"name", "kind", "expected", "got", "detail"}"""
+    import types
+    out = []
+    for name, kind, accept, src in _HOOK_SOURCES:
+        got, detail = "accepted", ""
+        try:
+            mod = types.ModuleType("kappadata_hook_selftest_" + name)
+            exec(compile(_HOOK_PRELUDE + src, mod.__name__, "exec"), mod.__dict__)
+            fn = next(n for n in ast.parse(src).body if isinstance(n, ast.FunctionDef))
+            if kind == "transform":
+                why = transform_hook_shape(fn, mod)
+                if why:
+                    got, detail = "refused", "; ".join(why)[:200]
+            else:
+                if not kdwrapper_hook_ok(hook_body(fn)):
+                    got, detail = "refused", "not the two understood statements"
+        except Exception as e:  # noqa
+            got, detail = "crash", f"{type(e).__name__}: {str(e)[:200]}"
+        out.append({"name": name, "kind": kind, "expected": "accepted" if accept else "refused", "got": got, "detail": detail})
+    return out
